@@ -99,6 +99,16 @@ Theorem C18_tcp_sid_random_32 :
 Proof. exact tcp_sid_random_32. Qed.
 Print Assumptions C18_tcp_sid_random_32.
 
+(* Fingerprinted copies: the spec the Fingerprinter builds from a captured hello carries no key_exchange bytes for any
+   non-GREASE share (each is generated per connection, hence fresh and - by C18_keys_retained - backed), and offers
+   exactly the captured non-GREASE groups. *)
+Theorem C18_fingerprinted_shares_generated : forall wire,
+  (forall k, In k (import_shares wire) -> is_grease (ks_group k) = true \/ generated k = true)
+  /\ map ks_group (filter generated (import_shares wire))
+     = map ks_group (filter (fun k => negb (is_grease (ks_group k))) wire).
+Proof. intros wire. split; [intros k; apply import_generated|apply import_groups]. Qed.
+Print Assumptions C18_fingerprinted_shares_generated.
+
 (* ---- non-vacuity ---- *)
 (* the laws are satisfiable *)
 Example C18_ex_laws_satisfiable :
